@@ -184,41 +184,48 @@ def _ref3ds(b):
     return base64.b64encode(b).decode().translate({43: 46, 47: 45, 61: 42})
 
 
+NASC_KNOB_ATTRS = ["sdk_version_major", "sdk_version_minor", "title_id", "title_version", "product_code", "maker_code", "media_type", "rom_id",
+              "serial_number", "mac_address", "fcd_cert", "device_name", "unit_code", "bss_id", "ap_info", "region", "language",
+              "pid", "pid_hmac", "password", "fpd_version", "environment", "url"]
+
+
+def nasc_expected_form(cur, gsid, nick):
+    f = [("gameid", "%08X" % gsid), ("sdkver", "%03i%03i" % (cur["sdk_version_major"], cur["sdk_version_minor"])),
+         ("titleid", "%016X" % cur["title_id"]), ("gamecd", cur["product_code"]), ("gamever", "%04X" % cur["title_version"]),
+         ("mediatype", str(cur["media_type"]))]
+    if cur["media_type"] == 2: f.append(("romid", cur["rom_id"]))
+    f += [("makercd", cur["maker_code"]), ("unitcd", cur["unit_code"]), ("macadr", cur["mac_address"]), ("bssid", cur["bss_id"]),
+          ("apinfo", cur["ap_info"]), ("fcdcert", cur["fcd_cert"]), ("devname", cur["device_name"].encode("utf-16-le")),
+          ("servertype", cur["environment"]), ("fpdver", "%04X" % cur["fpd_version"]), ("lang", "%02X" % cur["language"]),
+          ("region", "%02X" % cur["region"]), ("csnum", cur["serial_number"])]
+    if cur["pid_hmac"] is not None: f += [("uidhmac", cur["pid_hmac"]), ("userid", str(cur["pid"]))]
+    else: f.append(("passwd", cur["password"]))
+    f += [("action", "LOGIN"), ("ingamesn", nick)]
+    return [(k, v.encode() if isinstance(v, str) else bytes(v)) for k, v in f]
+
+def nasc_configure_fresh(cur):
+    from nintendo import nasc
+    c = nasc.NASCClient()
+    c.set_url(cur["url"]); c.set_sdk_version(cur["sdk_version_major"], cur["sdk_version_minor"])
+    c.set_title(cur["title_id"], cur["title_version"], cur["product_code"], cur["maker_code"], cur["media_type"], cur["rom_id"])
+    c.set_device(cur["serial_number"], cur["mac_address"], cur["fcd_cert"], cur["device_name"], cur["unit_code"])
+    c.set_network(cur["bss_id"], cur["ap_info"]); c.set_locale(cur["region"], cur["language"])
+    if cur["pid_hmac"] is not None: c.set_user(cur["pid"], cur["pid_hmac"])
+    else: c.set_password(cur["password"])
+    c.set_fpd_version(cur["fpd_version"]); c.set_environment(cur["environment"])
+    return c
+
+
 def nasc_walks(ctx, rng, C, oracle_fail, quick):
+    KNOB_ATTRS = NASC_KNOB_ATTRS
     from nintendo import nasc
     import datetime
     EDGE = "éあＡ€"
     def rtext(n, pool=ALPH): return "".join(rng.choice(pool) for _ in range(rng.randint(0, n)))
     def b(v): return v.encode() if isinstance(v, str) else bytes(v)
 
-    KNOB_ATTRS = ["sdk_version_major", "sdk_version_minor", "title_id", "title_version", "product_code", "maker_code", "media_type", "rom_id",
-                  "serial_number", "mac_address", "fcd_cert", "device_name", "unit_code", "bss_id", "ap_info", "region", "language",
-                  "pid", "pid_hmac", "password", "fpd_version", "environment", "url"]
 
-    def expected_form(cur, gsid, nick):
-        f = [("gameid", "%08X" % gsid), ("sdkver", "%03i%03i" % (cur["sdk_version_major"], cur["sdk_version_minor"])),
-             ("titleid", "%016X" % cur["title_id"]), ("gamecd", cur["product_code"]), ("gamever", "%04X" % cur["title_version"]),
-             ("mediatype", str(cur["media_type"]))]
-        if cur["media_type"] == 2: f.append(("romid", cur["rom_id"]))
-        f += [("makercd", cur["maker_code"]), ("unitcd", cur["unit_code"]), ("macadr", cur["mac_address"]), ("bssid", cur["bss_id"]),
-              ("apinfo", cur["ap_info"]), ("fcdcert", cur["fcd_cert"]), ("devname", cur["device_name"].encode("utf-16-le")),
-              ("servertype", cur["environment"]), ("fpdver", "%04X" % cur["fpd_version"]), ("lang", "%02X" % cur["language"]),
-              ("region", "%02X" % cur["region"]), ("csnum", cur["serial_number"])]
-        if cur["pid_hmac"] is not None: f += [("uidhmac", cur["pid_hmac"]), ("userid", str(cur["pid"]))]
-        else: f.append(("passwd", cur["password"]))
-        f += [("action", "LOGIN"), ("ingamesn", nick)]
-        return [(k, b(v)) for k, v in f]
-
-    def configure_fresh(cur):
-        c = nasc.NASCClient()
-        c.set_url(cur["url"]); c.set_sdk_version(cur["sdk_version_major"], cur["sdk_version_minor"])
-        c.set_title(cur["title_id"], cur["title_version"], cur["product_code"], cur["maker_code"], cur["media_type"], cur["rom_id"])
-        c.set_device(cur["serial_number"], cur["mac_address"], cur["fcd_cert"], cur["device_name"], cur["unit_code"])
-        c.set_network(cur["bss_id"], cur["ap_info"]); c.set_locale(cur["region"], cur["language"])
-        if cur["pid_hmac"] is not None: c.set_user(cur["pid"], cur["pid_hmac"])
-        else: c.set_password(cur["password"])
-        c.set_fpd_version(cur["fpd_version"]); c.set_environment(cur["environment"])
-        return c
+    expected_form, configure_fresh = nasc_expected_form, nasc_configure_fresh
 
     for w in range(2 if quick else 16):
         client = nasc.NASCClient()
